@@ -561,6 +561,19 @@ func (e *SpecEnv) Eval(x SExpr) Val {
 					return v
 				}
 			}
+			if sel, ok := n.X.(SSel); ok {
+				// &p.f: the address of a field of the struct p points to
+				x := e.Eval(sel.X)
+				if x.K == KPtr {
+					if et := derefType(x.Typ); et != nil {
+						if st, ok := structOf(et); ok {
+							if i := findField(st, sel.F); i >= 0 {
+								return vc.fieldAddr(x, st, typeKey(et), i)
+							}
+						}
+					}
+				}
+			}
 			e.fail("cannot take the address of %s", specString(n.X))
 		}
 		v := e.Eval(n.X)
